@@ -48,12 +48,18 @@ class SimWriteFile(object):
         self._written = 0
         self.closed = False
         self._dead = False
+        self._pos = 0             # the handle's position in the file (bytes)
+        self._pending = ''        # text the "operating system" refused: it is still in the handle's buffer
+        self._crashed = False
+        self._fd = None
+        fs._handles.append(self)
 
     # durable side ------------------------------------------------------
     def _to_disk(self, text):
         if text:
             with REAL_OPEN(self.name, 'ab') as f:
                 f.write(_translate(text, self._newline).encode(self.encoding, self.errors))
+                self._pos = f.tell()
             self.fs.stamp(self.name)
 
     def _flush_all(self):
@@ -83,7 +89,9 @@ class SimWriteFile(object):
                 self.fs.fired(f['kind'])
                 self._dead = True
                 if f['kind'] == 'crash_mid_write':
+                    self._crashed = True
                     raise SimCrash('mid_write')
+                self._pending = s[k:]
                 raise _oserror(f.get('errno', 'ENOSPC'), self.name)
         self._buf.append(s)
         self._written += len(s)
@@ -99,12 +107,26 @@ class SimWriteFile(object):
         if not self._dead:
             self._flush_all()
 
+    def _forget(self):
+        if self._fd is not None:
+            try:
+                os.close(self._fd)
+            except OSError:
+                pass
+            self._fd = None
+        try:
+            self.fs._handles.remove(self)
+        except ValueError:
+            pass
+
     def close(self):
         if self.closed:
             return
         self.closed = True
+        self._forget()
         if self._dead:
             self._buf = []
+            self._pending = ''
             return
         f = self._fault
         if f is not None and f['kind'] in ('close_error', 'crash_pre_close') and not f.get('fired'):
@@ -117,6 +139,7 @@ class SimWriteFile(object):
             self.fs.fired(f['kind'])
             self._dead = True
             if f['kind'] == 'crash_pre_close':
+                self._crashed = True
                 raise SimCrash('pre_close')
             raise _oserror(f.get('errno', 'EIO'), self.name)
         self._flush_all()
@@ -135,7 +158,12 @@ class SimWriteFile(object):
         return False
 
     def fileno(self):
-        raise io.UnsupportedOperation('fileno')
+        # a real descriptor of the scratch file, so that os.fsync(f.fileno()) works as it would on a real file
+        if self.closed:
+            raise ValueError('I/O operation on closed file')
+        if self._fd is None:
+            self._fd = os.open(self.name, os.O_RDONLY)
+        return self._fd
 
     def isatty(self):
         return False
@@ -227,6 +255,7 @@ class SimFS(object):
         self._installed = False
         self.opens = 0
         self.passthrough = 0
+        self._handles = []       # write handles the code under test has not closed (yet)
         ctx.fs = self
         sw = getattr(ctx, 'swarm', None) or {}
         # modification times come from the simulated clock at the granularity of the simulated file system (1 s: ext3,
@@ -235,6 +264,37 @@ class SimFS(object):
         # the locale's encoding on the writer's side (used when open() is given none); readers default to UTF-8
         self.write_encoding = sw.get('fs_write_encoding', 'utf-8')
         self.enc = {}            # path -> encoding the file was written with
+
+    def finalize_leaked(self):
+        """Garbage collection reaches the write handles the code left open (an error path that skipped close()): whatever
+        was still in their buffers is written now, at the position the handle had - into whatever the file has become."""
+        n = 0
+        for h in list(self._handles):
+            if h.closed:
+                continue
+            h.closed = True
+            h._forget()
+            if h._crashed:
+                continue                  # the process died with the handle: nothing is flushed
+            text = h._pending + ''.join(h._buf) if h._dead else ''.join(h._buf)
+            h._buf, h._pending = [], ''
+            if not text:
+                continue
+            data = _translate(text, h._newline).encode(h.encoding, 'replace')
+            try:
+                with REAL_OPEN(h.name, 'rb') as f:
+                    cur = f.read()
+            except OSError:
+                cur = b''
+            off = len(cur) if h.mode == 'a' else min(len(cur), h._pos)
+            new = cur[:off] + data + cur[off + len(data):]
+            with REAL_OPEN(h.name, 'wb') as f:
+                f.write(new)
+            self.stamp(h.name)
+            self.ctx.faults['leaked_handle_flushed_late'] += 1
+            n += 1
+        self._handles = []
+        return n
 
     def stamp(self, path):
         clock = getattr(self.ctx, 'clock', None)
@@ -354,6 +414,8 @@ class SimFS(object):
 
     def cleanup(self):
         self.uninstall()
+        for h in list(self._handles):
+            h._forget()
         shutil.rmtree(self.root, ignore_errors=True)
 
     _last = None
